@@ -31,6 +31,10 @@ from btclib.curves import curve as curve_mod
 from btclib.curves import curve_group as cg
 from btclib.curves import sec_point as sec_point_mod
 from btclib.ecc import dh as dh_mod
+from btclib.ecc import ellswift as ellswift_mod
+from btclib import key as key_mod
+from btclib.mnemonic import electrum as electrum_mod
+from btclib.script import script as script_mod
 from btclib.curves.curve import Curve, PreparedPoint, double_mult_var, mult, multi_mult_var
 from btclib.ecc import dsa, musig2, pedersen, ssa
 from btclib.mnemonic import bip39
@@ -1076,6 +1080,36 @@ def _o_soft_closed(w):
     return False, f"SoftwareSigner.{w['method']} answered after close(): {str(v)[:40]}…"
 
 
+@functools.lru_cache(maxsize=None)
+def _plugin():
+    """the translator plugin of this property (tools/specs/lifecycle.py): its AST classification of SoftwareSigner's
+    methods and its introspected inventory of btclib's memos are the SAME ones the Lean obligations are stated on."""
+    import importlib.util  # noqa: PLC0415
+    spec = importlib.util.spec_from_file_location("specs_lifecycle_c20", os.path.join(common.ROOT, "tools", "specs", "lifecycle.py"))
+    m = importlib.util.module_from_spec(spec)
+    spec.loader.exec_module(m)
+    return m
+
+
+def _o_soft_closed_generic(w):
+    """a closed signer refuses a method the translator classified as reaching the key material or a signing primitive,
+    BEFORE it looks at its arguments (every required parameter is None): whatever the method is called, known to this
+    harness or not."""
+    import inspect  # noqa: PLC0415
+    s = SoftwareSigner(_XPRV)
+    s.close()
+    fn = getattr(s, w["method"])
+    k = sum(1 for p_ in inspect.signature(fn).parameters.values()
+            if p_.default is p_.empty and p_.kind in (p_.POSITIONAL_ONLY, p_.POSITIONAL_OR_KEYWORD))
+    try:
+        v = fn(*([None] * k))
+    except BTClibValueError as e:
+        return "closed" in str(e), f"{w['method']} after close raised BTClibValueError({e})"
+    except Exception as e:  # noqa: BLE001
+        return False, f"SoftwareSigner.{w['method']} after close() reached its body: {type(e).__name__}: {str(e)[:60]}"
+    return False, f"SoftwareSigner.{w['method']} answered after close(): {str(v)[:40]}"
+
+
 def _o_wallet_invariant(w):
     cfg, ops = w["cfg"], w["ops"]
     wal = WALLETS[cfg]()
@@ -1179,17 +1213,167 @@ def _eval(d):
         q = d[1]
         sig = dsa.sign_(bytes.fromhex(d[2]), q).serialize()
         return [sig.hex(), dsa.verify_(bytes.fromhex(d[2]), mult(q), sig)]
+    if k == "mult_fixwind":     # the one caller of _cached_multiples_fixwind
+        ec = _curve(d[1])
+        return list(ec.aff_from_jac_var(cg._mult_fixed_window_cached_var(d[2], (*_pt(ec, d[3]), 1), ec, 4)))  # noqa: SLF001
+    if k == "mult_window_cached":     # no caller inside btclib asks for cached=True today: the memo is reached directly
+        ec = _curve(d[1])
+        return list(ec.aff_from_jac_var(cg._mult_fixed_window_var(d[2], (*_pt(ec, d[3]), 1), ec, 4, cached=True)))  # noqa: SLF001
+    if k == "electrum_old":
+        mn = electrum_mod.old_mnemonic_from_hex_seed(d[1])
+        return [mn, electrum_mod.hex_seed_from_old_mnemonic(mn)]
+    if k == "ellswift":
+        ec = _curve(d[1])
+        return list(ellswift_mod.decode_var(bytes.fromhex(d[2]), ec))
+    if k in ("prvkey_pub", "pubkey_point", "script_asm"):
+        # a cached_property: one entry per instance.  -> [first read, second read, the undecorated function, on a second
+        # equal instance, was the value stored in the instance]
+        make, attr, canon = {
+            "prvkey_pub": (lambda: key_mod.PrvKeyData(d[1], "mainnet", True), "pub", lambda v: v.sec.hex()),
+            "pubkey_point": (lambda: key_mod.PubKeyData(bytes.fromhex(d[1])), "point", list),
+            "script_asm": (lambda: script_mod.Script(bytes.fromhex(d[1])), "asm", lambda v: [str(x) for x in v]),
+        }[k]
+        o = make()
+        cp = vars(type(o))[attr]
+        first, second = canon(getattr(o, attr)), canon(getattr(o, attr))
+        return [first, second, canon(cp.func(make())), canon(getattr(make(), attr)), attr in vars(o)]
     raise common.HarnessError(f"unknown call {d}")
 
 
+# every memo of btclib, as the translator plugin finds them by introspection of the imported package (the same list the
+# Lean obligation `cache_inventory_covered` is stated on): name -> the calls of `_eval` that go THROUGH it (checked, not
+# claimed: the cache.inventory oracle empties the memo, makes the calls on the Python arm and requires an entry to appear)
+_ELL = hashlib.sha512(b"c20 ellswift").digest()
+CACHE_COVER = {
+    "btclib.bip32.bip32._cached_base58_decode": [["b58cached", _ACC, "str"], ["derive", _ACC, "m/0/7"]],
+    "btclib.curves.curve_group._cached_fixed_base_multiples": [["mult", "secp160r1", 0xABCDEF0123456789ABCDEF, None]],
+    "btclib.curves.curve_group._cached_multiples": [["mult_window_cached", "secp160r1", 0xABCDEF0123456789, 7]],
+    "btclib.curves.curve_group._cached_multiples_fixwind": [["mult_fixwind", "secp160r1", 0xABCDEF0123456789, 7]],
+    "btclib.curves.curve_group._cached_odd_multiples_aff": [["double_mult", "secp160r1", 0xABCDEF01234567, 1, 0x1234567, 5],
+                                                            ["prepared", "secp160r1", 0xABCDEF01234567, 9]],
+    "btclib.ecc.ellswift._CONSTANTS": [["ellswift", "secp256k1", _ELL.hex()], ["ellswift", "secp192k1", _ELL[:48].hex()]],
+    "btclib.ecc.pedersen.second_generator": [["second_generator", "secp256k1"], ["second_generator", "secp160r1"]],
+    "btclib.key.PrvKeyData.pub": [["prvkey_pub", _Q]],
+    "btclib.key.PubKeyData.point": [["pubkey_point", _CHILD_PUB.hex()]],
+    "btclib.mnemonic.electrum._old_word_indexes": [["electrum_old", "00112233445566778899aabbccddeeff"]],
+    "btclib.mnemonic.electrum._old_wordlist": [["electrum_old", "00112233445566778899aabbccddeeff"]],
+    "btclib.script.script.Script.asm": [["script_asm", "76a914" + "11" * 20 + "88ac"]],
+}
+
+
+@functools.lru_cache(maxsize=None)
+def _inventory():
+    return {r[0]: r for r in _plugin().cache_inventory()}
+
+
 def _lru_functions():
-    return [cg._cached_multiples, cg._cached_multiples_fixwind, cg._cached_odd_multiples_aff,  # noqa: SLF001
-            cg._cached_fixed_base_multiples, bip32_mod._cached_base58_decode, pedersen.second_generator]  # noqa: SLF001
+    """every functools.lru_cache / functools.cache wrapper of btclib, by introspection (a new one is cleared and
+    evicted with the rest from the day it appears)."""
+    return [r[4] for r in _inventory().values() if r[1] in ("lru", "unbounded")]
 
 
 def _clear_all():
     for f in _lru_functions():
         f.cache_clear()
+    for r in _inventory().values():
+        if r[1] == "moduleTable":
+            r[4].clear()
+
+
+def _memo_size(row):
+    hold, obj = row[1], row[4]
+    if hold in ("lru", "unbounded"):
+        return obj.cache_info().currsize
+    if hold == "moduleTable":
+        return len(obj)
+    return None     # per instance: `_eval` reports it
+
+
+def _o_cache_inventory(w):
+    """a memo found by introspection is one this check accounts for: the calls listed for it go through it (an entry
+    appears in the emptied memo), and they answer the same emptied / warm / emptied again / on the other arm."""
+    row = _inventory().get(w["name"])
+    if row is None:
+        return False, f"{w['name']}: not a memo of btclib any more (stale CACHE_COVER entry)"
+    descs = CACHE_COVER.get(w["name"])
+    if not descs:
+        return False, (f"{w['name']} ({row[1]}{'' if row[2] is None else ' ' + str(row[2])}): a memo of btclib that no call of "
+                       "this check is known to go through -- add it to CACHE_COVER and to coveredCaches")
+    out = []
+    with _flag(False):
+        _clear_all()
+        out.append([_eval(d) for d in descs])
+        size = _memo_size(row)
+        if size == 0 or (size is None and not all(a[4] for a in out[0])):
+            return False, f"{w['name']}: the calls {descs} left it empty -- they do not go through it"
+        out.append([_eval(d) for d in descs])
+        _clear_all()
+        out.append([_eval(d) for d in descs])
+    with _flag(True):
+        out.append([_eval(d) for d in descs])
+        _clear_all()
+        out.append([_eval(d) for d in descs])
+    if any(o != out[0] for o in out):
+        return False, f"{w['name']}: answers of {descs} differ between emptied / warm / other arm: {str(out)[:200]}"
+    if row[1] == "perInstance" and any(not (a[0] == a[1] == a[2] == a[3]) for a in out[0]):
+        return False, f"{w['name']}: first read, second read, undecorated function and a second equal instance differ: {str(out[0])[:200]}"
+    return True, f"{row[1]}, {len(descs)} calls, size after them {size}"
+
+
+_IMMUTABLE = (int, str, bytes, bool, float, frozenset, type(None))
+
+
+def _mutable_part(v, depth=0):
+    """the first mutable container reachable in an answer (tuples and frozen dataclasses are looked into)."""
+    if isinstance(v, _IMMUTABLE):
+        return None
+    if isinstance(v, (list, dict, set, bytearray)):
+        return type(v).__name__
+    if isinstance(v, tuple) and depth < 4:
+        return next((m for m in (_mutable_part(x, depth + 1) for x in v[:8]) if m), None)
+    if hasattr(v, "__dataclass_fields__") and depth < 4:
+        if not type(v).__dataclass_params__.frozen:
+            return type(v).__name__
+        return next((m for m in (_mutable_part(getattr(v, f), depth + 1) for f in v.__dataclass_fields__) if m), None)
+    return None
+
+
+def _o_cached_answer_not_aliased(w):
+    """a memo that is PUBLIC API (a cached_property, or an lru_cache'd function without a leading underscore) does not hand
+    its caller the very container it keeps: editing an answer must not change the next one."""
+    row = _inventory()[w["name"]]
+    d = CACHE_COVER[w["name"]][0]
+    if row[1] == "perInstance":
+        make, attr = {"prvkey_pub": (lambda: key_mod.PrvKeyData(d[1], "mainnet", True), "pub"),
+                      "pubkey_point": (lambda: key_mod.PubKeyData(bytes.fromhex(d[1])), "point"),
+                      "script_asm": (lambda: script_mod.Script(bytes.fromhex(d[1])), "asm")}[d[0]]
+        o = make()
+        read = lambda: getattr(o, attr)  # noqa: E731
+        fresh = lambda: getattr(make(), attr)  # noqa: E731
+    else:
+        fn = row[4]
+        args = {"btclib.ecc.pedersen.second_generator": (secp256k1,)}.get(w["name"])
+        if args is None:
+            return False, f"{w['name']}: a public memoised function this oracle has no arguments for"
+        read = fresh = lambda: fn(*args)  # noqa: E731
+    v = read()
+    kind = _mutable_part(v)
+    if kind is None:
+        return True, f"answers a {type(v).__name__} with no mutable part"
+    before = copy.deepcopy(v)
+    if isinstance(v, list):
+        v.append("edited by the caller")
+    elif isinstance(v, dict):
+        v["edited by the caller"] = 1
+    elif isinstance(v, set):
+        v.add("edited by the caller")
+    else:
+        return False, f"{w['name']} answers a {kind} (inside a {type(v).__name__}) that it also keeps"
+    again = read()
+    if again != before:
+        return False, (f"{w['name']} hands out the {kind} it keeps: after the caller edited one answer the next read is "
+                       f"{str(again)[:80]}, a fresh object answers {str(fresh() if row[1] == 'perInstance' else before)[:60]}")
+    return True, f"answers a {kind}, a copy each time"
 
 
 def _evict(n, kind, heavy=False):
@@ -1698,11 +1882,14 @@ ORACLES = {
     "nonce.spellings": _o_nonce_spellings,
     "signer.wiped_dead": _o_signer_dead,
     "softsigner.closed_never_signs": _o_soft_closed,
+    "softsigner.closed_refuses_reaching": _o_soft_closed_generic,
     "wallet.invariant": _o_wallet_invariant,
     "backend.captured_objects": _o_captured_objects,
     "cache.independent": _o_cache_independent,
     "cache.key_sound": _o_key_sound,
     "cache.vs_uncached": _o_vs_uncached,
+    "cache.inventory": _o_cache_inventory,
+    "cache.answer_not_aliased": _o_cached_answer_not_aliased,
     "curve.identity": _o_curve_identity,
     "threads.search": _o_threads,
     "threads.cold_start": _o_cold_start,
@@ -1867,6 +2054,16 @@ def _run(ctx, rng, thorough):
                       key="softwaresigner-closed-still-signs-through-keymanager" if m.startswith("sign_ecdsa") or
                       m.startswith("sign_schnorr") else None)
 
+    # every method the translator's reachability analysis puts in the guard theorem, called on a closed signer
+    reaching = _plugin().software_signer_signing()
+    for m in reaching:
+        ctx.check("softsigner.closed_refuses_reaching", {"method": m}, key=f"softwaresigner-closed-still-answers-{m}")
+        ctx.count("softsigner.reaching_methods", m)
+    unknown = [m for m in reaching + [n for n, _ in _plugin().software_signer_guards()] if m not in SOFT_METHODS]
+    if unknown:
+        ctx.note(f"SoftwareSigner has public methods this harness has no call shape for: {sorted(set(unknown))} (they are in the "
+                 "guard theorem and the generic closed-signer oracle, not in the soft.* streams)")
+
     _lap(ctx, "software_signer")
     # ---------------------------------------------------------------- wallets
     fa, fk = _tok(FOREIGN_ADDR), _tok(_foreign_key_addr())
@@ -1997,6 +2194,9 @@ def _run(ctx, rng, thorough):
         calls.append(["mnemonic", lang, ent])
         calls.append(["entropy", lang, bip39.mnemonic_from_entropy(bytes.fromhex(ent), lang)])
     calls += [["second_generator", "secp256k1"], ["second_generator", "secp160r1"]]
+    # the calls that go through each memo found by introspection (cold / warm / clear / evict / flips like the rest)
+    for descs in CACHE_COVER.values():
+        calls += [d_ for d_ in descs if d_ not in calls]
     calls += [["session_values", s] for s in (0, 1, 2, 6, 7)]
     calls += [["psig_verify", s, 0, fr] for s in (0, 1, 7) for fr in (True, False)]
     calls += [["ssa", rng.randrange(1, N), _h("ssa", i).hex()] for i in range(2)]
@@ -2030,6 +2230,18 @@ def _run(ctx, rng, thorough):
     ctx.check("cache.vs_uncached", {"family": "base58", "seed": rng.getrandbits(32), "n": 6 if not thorough else 40})
     ctx.check("cache.vs_uncached", {"family": "second_generator", "seed": rng.getrandbits(32)})
 
+    # every memo of the imported package, found by introspection: accounted for, and really gone through
+    for name, row in sorted(_inventory().items()):
+        ctx.check("cache.inventory", {"name": name}, key=f"cache-unaccounted-{name}")
+        ctx.count("cache.inventory", f"{row[1]}{'' if row[2] is None else ':' + str(row[2])}{' curve-keyed' if row[3] else ''}")
+        public = row[1] == "perInstance" or (row[1] in ("lru", "unbounded") and not name.rsplit(".", 1)[1].startswith("_"))
+        if public and name in CACHE_COVER:
+            ctx.check("cache.answer_not_aliased", {"name": name}, key=f"cached-answer-aliased-{name}")
+    for name in sorted(set(CACHE_COVER) - set(_inventory())):
+        ctx.check("cache.inventory", {"name": name}, key=f"cache-unaccounted-{name}")
+    ctx.note("memos of btclib are found by introspection of the imported package each run (lru_cache / cache wrappers, "
+             "cached_property, module-level containers a function fills); instance-level lazy state (WordLists, "
+             "SessionContext._values/_bindings_ctx) is not found that way and is covered by name (wordlist model, cold-start oracle)")
     _lap(ctx, "caches")
     for comp, (c1, c2) in sorted(_curve_pairs().items()):
         for k in range(ctx.n(1, 6)):
